@@ -23,6 +23,8 @@ import Driver.TG
 import Driver.LK
 import Driver.Misc
 import Driver.Load
+import Driver.ExText
+import Driver.ExK
 /-!
 Line-protocol driver `jsight-model` (DESIGN.md §12). One request per line on stdin, one reply per
 line on stdout. Core Lean only: nothing imported here may import Mathlib (the executable would
@@ -194,6 +196,8 @@ def handle (line : String) : String :=
   | "semk" :: _ => DSemK.handle (restOf line)
   | "semp" :: _ => DSemP.handle (restOf line)
   | "ex" :: _ => DEx.handle line
+  | "extext" :: r => DExText.handle (r.headD "")
+  | "exk" :: _ => DExK.handle line
   | "tg" :: _ => DTG.handle line
   | "lk" :: _ => DLK.handle line
   | "ast" :: r => DMisc.ast r
